@@ -20,7 +20,7 @@ fn space(tier: Tier) -> &'static Space {
     static T: OnceLock<Space> = OnceLock::new();
     match tier {
         Tier::Quick => Q.get_or_init(|| Space::new(&[("FS", 2), ("FC", 2), ("FA", 2)])),
-        Tier::Thorough => T.get_or_init(|| Space::new(&[("FS", 3), ("FC", 3), ("FA", 4)])),
+        Tier::Thorough => T.get_or_init(|| Space::new(&[("FS", 3), ("FC", 3), ("FA", 3)])),
     }
 }
 fn params(tier: Tier) -> (usize, &'static [usize]) {
